@@ -22,6 +22,36 @@ fn level(t: Tier) -> Level {
     }
 }
 
+/// frames of every format that may follow the first one, among them identification squitters whose callsign
+/// looks like a registration mark of some state, in every category class
+fn later_frames(a: u32) -> Vec<frames::Frame> {
+    let mut v = vec![
+        frames::df4(a, frames::ac13_for_alt(31000)),
+        frames::df5(a, frames::id13_for_squawk(4521)),
+        frames::df17(5, a, frames::me_ident(4, 3, frames::callsign_codes("REG"))),
+        frames::df17(0, a, frames::me_tc31(2)),
+        frames::df20(a, frames::ac13_for_alt(7000), frames::mb_bds17(0xFFFFFF)),
+        frames::df21(a, frames::id13_for_squawk(1000), 0x20_04D3_0C30_C30C),
+        frames::df0(a, 100),
+        frames::df16(a, 100, 0),
+    ];
+    for cf in 0..8 {
+        v.push(frames::df18(cf, a, frames::me_ident(2, 1, frames::callsign_codes("TIS"))));
+        v.push(frames::df18(cf, a, frames::me_airpos(11, 0, 0, frames::ac12_for_alt(5000), 0, (cf & 1) as u32, 93000, 51372)));
+    }
+    for (i, cs) in ["GABCD", "DEABC", "EIABC", "N123AB", "FGXYZ", "OKABC", "VHABC", "CFABC", "RA12345", "B1234", "JA123A", "HBABC"].iter().enumerate() {
+        let (tc, ca) = [(4u32, 1u32), (4, 7), (3, 1), (3, 4), (2, 1), (1, 0), (4, 3)][i % 7];
+        v.push(frames::df17(5, a, frames::me_ident(tc, ca, frames::callsign_codes(cs))));
+        v.push(frames::df21(a, frames::id13_for_squawk(1000), frames::mb_bds20(frames::callsign_codes(cs))));
+    }
+    for (tc, ca) in [(4u32, 1u32), (4, 7), (3, 1), (3, 4)] {
+        for cs in ["GABCD", "DEABC", "N123AB"] {
+            v.push(frames::df17(5, a, frames::me_ident(tc, ca, frames::callsign_codes(cs))));
+        }
+    }
+    v
+}
+
 fn gate(p: &Partial, t: Tier) -> Result<(), String> {
     super::default_gate(p, t)?;
     if p.evals < (1 << 24) {
@@ -118,25 +148,20 @@ fn run(ctx: &mut Ctx) {
     // (b') the registration is decided by the address alone: under -U and -R as well, and whatever
     // frames of whatever format arrive later (DF18 with every CF value included)
     {
-        let later = |a: u32| -> Vec<frames::Frame> {
-            let mut v = vec![
-                frames::df4(a, frames::ac13_for_alt(31000)),
-                frames::df5(a, frames::id13_for_squawk(4521)),
-                frames::df17(5, a, frames::me_ident(4, 3, frames::callsign_codes("REG"))),
-                frames::df17(0, a, frames::me_tc31(2)),
-                frames::df20(a, frames::ac13_for_alt(7000), frames::mb_bds17(0xFFFFFF)),
-                frames::df21(a, frames::id13_for_squawk(1000), 0x20_04D3_0C30_C30C),
-                frames::df0(a, 100),
-                frames::df16(a, 100, 0),
-            ];
-            for cf in 0..8 {
-                v.push(frames::df18(cf, a, frames::me_ident(2, 1, frames::callsign_codes("TIS"))));
-                v.push(frames::df18(cf, a, frames::me_airpos(11, 0, 0, frames::ac12_for_alt(5000), 0, (cf & 1) as u32, 93000, 51372)));
-            }
-            v
-        };
+        let later = later_frames;
         let mut addrs: Vec<u32> = lk.blocks.iter().flat_map(|b| [b.lo, b.hi]).collect();
-        addrs.extend([0x000001u32, 0x00A000, 0x2FFFFF, 0x900500, 0xFFFFFF]);
+        addrs.extend([0x000001u32, 0x00A000, 0x2FFFFF, 0x900500, 0xFFFFFF, 0xD09000]);
+        // both ends of every unallocated gap between blocks (their registration is "??" whatever they send)
+        let mut sorted: Vec<(u32, u32)> = lk.blocks.iter().map(|b| (b.lo, b.hi)).collect();
+        sorted.sort();
+        for w in sorted.windows(2) {
+            if w[0].1 + 1 < w[1].0 {
+                addrs.push(w[0].1 + 1);
+                addrs.push(w[1].0 - 1);
+            }
+        }
+        addrs.sort();
+        addrs.dedup();
         for (ci, opts) in [&[][..], &["-U"][..], &["-R"][..], &["-U", "-R"][..]].iter().enumerate() {
             let cfgx = Cfg::new(opts);
             for (k, chunk) in addrs.chunks(64).enumerate() {
@@ -252,14 +277,10 @@ fn replay(ctx: &mut Ctx, case: &Value) {
             if case.get("df11").and_then(|x| x.as_bool()).unwrap_or(true) {
                 lines.push(frames::df11(5, a, 0).hex().into_bytes());
             }
-            lines.push(frames::df4(a, frames::ac13_for_alt(31000)).hex().into_bytes());
-            lines.push(frames::df17(5, a, frames::me_ident(4, 3, frames::callsign_codes("REG"))).hex().into_bytes());
-            for cf in 0..8 {
-                lines.push(frames::df18(cf, a, frames::me_ident(2, 1, frames::callsign_codes("TIS"))).hex().into_bytes());
-            }
+            lines.extend(later_frames(a).iter().map(|f| f.hex().into_bytes()));
             let obs = run_vectors(&cfg, &[Vector { addr: a, lines }]);
             let got = obs[0].row().map(|s| s.reg.clone());
-            crate::run::say(&format!("address {a:06X} under [{}] after DF4, DF17, DF18 (CF 0..7): expected {want}, observed {got:?}", cfg.label()));
+            crate::run::say(&format!("address {a:06X} under [{}] after frames of every format (DF18 with CF 0..7, registration-like callsigns): expected {want}, observed {got:?}", cfg.label()));
             if got.as_deref() != Some(want) {
                 ctx.violation("C17/later-frames", &format!("addr={a:06X}"), || format!("expected {want}, got {got:?}"), || case.clone());
             }
